@@ -90,9 +90,13 @@ pub fn compare_tree(rep: &mut Report, text: &str, family: &str) -> (Outcome, Opt
     let c = guarded(|| jmespath::parse(text));
     let ast = match c {
         Ok(Ok(a)) => a,
-        Ok(Err(_)) => {
-            if r.is_ok() {
-                rep.count("acceptance_disagreement_left_to_C03");
+        Ok(Err(e)) => {
+            // A sentence the precedence rules give a tree to, refused: an operator was attached to
+            // the wrong operand (e.g. a call applied to `a.f` instead of `f`) and the result no longer
+            // fits the grammar. That is a binding error even though it surfaces as a rejection.
+            if r.is_ok() && !text.contains("2147483648") {
+                rep.violation("C04/expression-with-a-defined-tree-rejected", json!({"expression": text, "family": family, "error": err_json(&e)}));
+                return (Outcome::Mismatch, None);
             }
             return (Outcome::NotComparable, None);
         }
